@@ -13,8 +13,14 @@ for f in sorted(glob.glob(os.path.join(VERIF, 'seeded', 'MATRIX-*.md'))) or [os.
 seeds = sorted({k[0] for k in rows})
 
 
-def verdict(res, why):
+def verdict(res, why, sd=None):
     if res == 'exit 0':
+        try:
+            note = json.load(open(os.path.join(VERIF, 'seeded', sd, 'meta.json'))).get('note_after_fixes')
+        except Exception:
+            note = None
+        if note:
+            return 'quiet - no longer a violation of its own property since a repair of /repo (meta.json note_after_fixes); noticed under C10'
         return 'MISSED'
     if 'no-failing-input-found' in why:
         return 'caught (obligation / correspondence broken, no failing input found)'
@@ -37,14 +43,14 @@ for sd in seeds:
     r = rows.get((sd, prop))
     if not r:
         continue
-    v = verdict(r[1], r[2])
+    v = verdict(r[1], r[2], sd)
     cnt[v.split(' ')[0] + (' abstract' if 'no failing' in v else '')] = cnt.get(v.split(' ')[0] + (' abstract' if 'no failing' in v else ''), 0) + 1
 out.append(f'Totals over {len(seeds)} seeded changes (own property, quick tier): ' + ', '.join(f'{k}: {n}' for k, n in sorted(cnt.items())) + '.\n')
 out.append('How the misses of each round were used: a change a check did not notice was read as a statement about the check - usually that a part of the code was outside every model, table and '
            'correspondence run (a rarely used entry point, a parameter corner, the second use of a value, two features meeting), sometimes that a catch depended on a race. Each was answered by '
            'extending the model or the correspondence (new model + theorem, new regenerated table, new deterministic schedule, a cross-read of another slice\'s runs through the property\'s own '
-           'projection) - never by special-casing the seed; the additions are listed in section 0 and docs/additions-0930.md. One seed stays unnoticed under its own property by decision '
-           '(C02-B is a lock-skeleton change of the subjects, a C10 matter: noticed by C10).\n')
+           'projection) - never by special-casing the seed; the additions are listed in section 0 and docs/additions-0930.md. One seed is quiet under its own property: C02-B (publish broadcasting outside its mutex) broke C02 only through '
+           'the unsafe pass-through operators, which were repaired in /repo ee00f46; since then its demonstration passes with the patch applied, it is a C10 matter and is noticed by C10.\n')
 out.append('| seed | what it changes | result under its own property | reported as |\n|---|---|---|---|')
 for sd in seeds:
     prop = sd.split('-')[0]
@@ -52,7 +58,7 @@ for sd in seeds:
     if not r:
         continue
     summ, res, why = r
-    out.append(f'| {sd} | {summ[:150]} | {verdict(res, why)} | {why[:200]} |')
+    out.append(f'| {sd} | {summ[:150]} | {verdict(res, why, sd)} | {why[:200]} |')
 text = '\n'.join(out) + '\n'
 p = os.path.join(VERIF, 'DESIGN.md')
 s = open(p).read()
